@@ -86,6 +86,15 @@ func genC18(r *Rng, tier string, idx int) *Program {
 		case 5:
 			p.Ops = append(p.Ops, Op{Kind: "ls_l0_retention"})
 		case 6:
+			if r.Chance(0.15) {
+				op := Op{Kind: "vfs_reopen"}
+				if r.Chance(0.6) {
+					site := PickOf(r, []string{"vfsclient:open", "vfsclient:open", "vfsclient:list:0", "vfsclient:list:9"})
+					op.Interpose = []Interpose{{Site: site, Nth: r.Range(1, 4), Steps: []Step{{K: "vfs_client_fail"}}}}
+				}
+				p.Ops = append(p.Ops, op)
+				break
+			}
 			p.Ops = append(p.Ops, Op{Kind: "vfs_poll"})
 		case 7:
 			p.Ops = append(p.Ops, Op{Kind: "vfs_lock"})
@@ -114,9 +123,10 @@ type c18state struct {
 	f        *litestream.VFSFile
 	lockedAt ltx.TXID // position when the SHARED lock was taken (0 = not locked)
 	maxPages uint32   // largest committed size of the source seen so far
-	shrunk   bool     // the source's committed size decreased at some point after the VFS file was opened
+	shrunk   bool     // the source's committed size decreased at some point of the run
 	traveled bool
 	// a target time set while a poll was in flight (checked by vfs_check_time)
+	client     *yieldClient
 	travelT    time.Time
 	travelWant []byte
 	travelErr  error
@@ -129,11 +139,26 @@ type c18state struct {
 type yieldClient struct {
 	litestream.ReplicaClient
 	e *Env
+	// failNext: the next remote call of the reader fails (transient error),
+	// armed by the interposable step vfs_client_fail
+	failNext bool
+}
+
+func (c *yieldClient) takeFault(call string) error {
+	if c.failNext {
+		c.failNext = false
+		c.e.Res.FaultsHit["vfs_client_"+call+"_error"]++
+		return fmt.Errorf("%s: %w", call, ErrInjected)
+	}
+	return nil
 }
 
 func (c *yieldClient) LTXFiles(ctx context.Context, level int, seek ltx.TXID, useMetadata bool) (ltx.FileIterator, error) {
 	if goid() == c.e.mainGID {
 		c.e.yield(fmt.Sprintf("vfsclient:list:%d", level))
+		if err := c.takeFault("list"); err != nil {
+			return nil, err
+		}
 	}
 	return c.ReplicaClient.LTXFiles(ctx, level, seek, useMetadata)
 }
@@ -141,6 +166,9 @@ func (c *yieldClient) LTXFiles(ctx context.Context, level int, seek ltx.TXID, us
 func (c *yieldClient) OpenLTXFile(ctx context.Context, level int, minTXID, maxTXID ltx.TXID, offset, size int64) (io.ReadCloser, error) {
 	if goid() == c.e.mainGID {
 		c.e.yield("vfsclient:open")
+		if err := c.takeFault("open"); err != nil {
+			return nil, err
+		}
 	}
 	return c.ReplicaClient.OpenLTXFile(ctx, level, minTXID, maxTXID, offset, size)
 }
@@ -160,11 +188,15 @@ func runC18(t testingT, p *Program) *Result {
 	return RunHIST(t, p, func(e *Env) {
 		c18cur = st
 		e.AfterOp = func(e *Env, i int, op *Op, res string) *Violation {
+			// the source's committed size decreased at some point of the run: files
+			// written after that are "shrinking files" whether the reader had the
+			// replica open at the time or opens it later (finding F4 covers both
+			// the poll path and the open path, which share the index builder)
 			n := e.Led.Last().NPages
-			if st.f != nil && n < st.maxPages {
+			if n < st.maxPages {
 				st.shrunk = true
 			}
-			if n > st.maxPages || st.f == nil {
+			if n > st.maxPages {
 				st.maxPages = n
 			}
 			return nil
@@ -238,6 +270,23 @@ func (e *Env) c18check0(st *c18state, when string) *Violation {
 	return nil
 }
 
+func openVFS(e *Env, st *c18state, set func(*Env, *Violation)) (string, bool) {
+	cl := &yieldClient{ReplicaClient: file.NewReplicaClient(e.RepDir), e: e}
+	st.client = cl
+	f := litestream.NewVFSFile(cl, "db", e.probeLogger())
+	f.PollInterval = 10000 * time.Hour // polls are issued by the program, one at a time
+	f.CacheSize = []int{1, 64 << 10, 10 << 20}[int(e.Prog.Seed%3)]
+	if err := f.Open(); err != nil {
+		cl.failNext = false
+		e.Res.Probes["vfs_open_errors"]++
+		return errStr(err), false
+	}
+	cl.failNext = false
+	st.f = f
+	set(e, e.c18check(st, "after open"))
+	return "ok", false
+}
+
 func init() {
 	ctx := context.Background()
 	set := func(e *Env, v *Violation) {
@@ -253,15 +302,36 @@ func init() {
 		if len(e.FS.Listing(0)) == 0 {
 			return "noop:empty", false
 		}
-		f := litestream.NewVFSFile(&yieldClient{ReplicaClient: file.NewReplicaClient(e.RepDir), e: e}, "db", e.probeLogger())
-		f.PollInterval = 10000 * time.Hour // polls are issued by the program, one at a time
-		f.CacheSize = []int{1, 64 << 10, 10 << 20}[int(e.Prog.Seed%3)]
-		if err := f.Open(); err != nil {
-			return errStr(err), false
+		return openVFS(e, st, set)
+	}
+	// vfs_reopen: the reader closes its file and opens the replica again (a new
+	// reader process); remote calls of the open path may fail (vfs_client_fail)
+	extraOps["vfs_reopen"] = func(e *Env, op *Op) (string, bool) {
+		st := c18cur
+		if st == nil || !st.travelT.IsZero() {
+			return "noop", false
 		}
-		st.f = f
-		set(e, e.c18check(st, "after open"))
-		return "ok", false
+		if st.f != nil {
+			if st.lockedAt != 0 {
+				st.f.Unlock(sqlite3vfs.LockNone)
+				st.lockedAt = 0
+			}
+			st.f.Close()
+			st.f = nil
+		}
+		if len(e.FS.Listing(0)) == 0 {
+			return "noop:empty", false
+		}
+		e.Res.Probes["vfs_reopens"]++
+		return openVFS(e, st, set)
+	}
+	harnessSteps["vfs_client_fail"] = func(e *Env, s *Step) string {
+		st := c18cur
+		if st == nil || st.client == nil {
+			return "noop"
+		}
+		st.client.failNext = true
+		return "ok"
 	}
 	extraOps["vfs_poll"] = func(e *Env, op *Op) (string, bool) {
 		st := c18cur
